@@ -34,6 +34,7 @@ from hypothesis import strategies as st
 
 from ..core import Clause, Violation, require
 from .. import gens
+from .. import gens_c15 as g15
 
 RULE = ("systems: conditioned cell (lengths 3-12, tilts up to half a length, crystal families, optionally rigidly rotated, origin up "
         "to +-100, all pbc triples), 1-40 atoms as a small supercell of a 1-4 atom basis or as jittered grid points, optionally a "
@@ -69,6 +70,7 @@ WALL = {'quick': 60, 'thorough': 600}
 KEY_DB = 'C15:dumbbell:db_vect-scaled-origin'
 KEY_INT = 'C15:pos:integer-typed'
 KEY_ONE = 'C15:pos:single-atom-system'
+KEY_U64 = 'C15:ptd_id:uint64-scalar'
 
 EPS = 2.220446049250313e-16
 DEFAULT_ATOL = 0.01            # angstrom, physically: env['atol0'] is this in the working units in force
@@ -103,6 +105,7 @@ class Model:
         self.props = props          # name -> array (N,)+shape
         self.kinds = kinds          # name -> (kind, shape)
         self.old_id = old_id        # None | list of int-or-None (None = value not documented, learned from the result)
+        self.face = np.zeros(len(x), dtype=bool)     # atom generated 1e-12 ... 1e-3 (relative) away from a face of the cell
 
     @property
     def n(self):
@@ -111,8 +114,10 @@ class Model:
     def take(self, idx):
         idx = list(idx)
         oid = None if self.old_id is None else [self.old_id[i] for i in idx]
-        return Model(self.x[idx].copy(), self.atype[idx].copy(), {k: v[idx].copy() for k, v in self.props.items()},
-                     self.kinds, oid)
+        new = Model(self.x[idx].copy(), self.atype[idx].copy(), {k: v[idx].copy() for k, v in self.props.items()},
+                    self.kinds, oid)
+        new.face = self.face[idx].copy()
+        return new
 
 
 def _same(a):
@@ -123,33 +128,63 @@ def build_env(sysd, conv=_same):
     """conv expresses angstrom numbers in the working units in force (identity under the default units)"""
     c = sysd['cell']
     A = float(conv(1.0))
-    V, o = np.array(conv(gens.cell_vects(c)), dtype=float), np.array(conv(gens.cell_origin(c)), dtype=float)
+    V0, o0 = g15.apply_sym(gens.cell_vects(c), gens.cell_origin(c), sysd.get('sym'))      # exact image of the cell (class G)
+    V, o = np.array(conv(V0), dtype=float), np.array(conv(o0), dtype=float)
     rel = np.array(sysd['rel'], dtype=float).reshape(-1, 3)
     x = rel @ V + o
     for j, d in sysd.get('twins', []):
         x = np.vstack([x, x[j % len(x)] + np.array(conv(np.array(d, dtype=float)), dtype=float)])
     n = len(x)
+    # storage dtypes (class C): the system IS what its storage holds - positions rounded to the storage dtype are the atoms'
+    # positions for the model too, so every value atomman sees is exactly representable in the dtype it is stored in
+    sd = dict(sysd.get('store') or {})
+    store = {'layout': sd.get('layout') or 'C', 'pos': None, 'atype': sd.get('atype'), 'f': sd.get('f'), 'i': sd.get('i'), 'oid': None}
+    estore = 0.0
+    if sd.get('pos'):
+        xr = g15.round_to(x, sd['pos'])
+        if xr is not None:
+            x, store['pos'] = xr, sd['pos']
+            estore = float(np.finfo(np.dtype(sd['pos'])).eps)
     atype = np.array([sysd['atype'][i % len(sysd['atype'])] for i in range(n)], dtype=np.int64)
     props, kinds = {}, {}
     for name, vals in sysd['props']:
         _, kind, shape = POOLD[name]
         arr = np.array([vals[i % len(vals)] for i in range(n)], dtype=DT[kind]).reshape((n,) + tuple(shape))
+        if kind == 'i' and store['i'] and sd.get('lim') and n >= 2:
+            info = np.iinfo(np.dtype(store['i']))             # integers up to the limits of the dtype they are stored in
+            arr.flat[0], arr.flat[-1] = info.max, info.min
         props[name] = arr
         kinds[name] = (kind, tuple(shape))
     oid = None
     if sysd.get('old_id') is not None:
         oid = [int(sysd['old_id'][i % len(sysd['old_id'])]) + 1000 * (i // len(sysd['old_id'])) for i in range(n)]
+        for dt in ((sd['oid'], 'int16') if sd.get('oid') else ()):
+            if all(g15.int_fits(v, dt) for v in oid):
+                store['oid'] = dt
+                if sd.get('lim'):
+                    oid[n // 2] = int(np.iinfo(np.dtype(dt)).max)       # the largest id the dtype holds (never also the smallest)
+                break
     env = dict(A=A, atol0=float(conv(DEFAULT_ATOL)), V=V, o=o, pbc=np.array(sysd['pbc'], dtype=bool), symbols=tuple(sysd['symbols']),
-               Vinv=np.linalg.inv(V), vmax=float(np.abs(V).max()), omax=float(np.abs(o).max()))
+               Vinv=np.linalg.inv(V), vmax=float(np.abs(V).max()), omax=float(np.abs(o).max()), store=store, estore=estore)
     env['w'] = 1.0 / np.linalg.norm(env['Vinv'], axis=0)          # perpendicular widths
-    return env, Model(x, atype, props, kinds, oid)
+    m = Model(x, atype, props, kinds, oid)
+    for j in sysd.get('face') or []:
+        m.face[int(j) % n] = True
+    return env, m
 
 
 def make_system(am, env, m):
-    kw = {k: v.copy() for k, v in m.props.items()}
+    sd = env['store']
+    lay = sd['layout']
+    kw = {}
+    for k, v in m.props.items():
+        dt = sd.get(m.kinds[k][0])
+        kw[k] = g15.layout_of(v.astype(dt) if dt else v.copy(), lay)
     if m.old_id is not None:
-        kw['old_id'] = np.array(m.old_id, dtype=np.int64)
-    atoms = am.Atoms(atype=m.atype.copy(), pos=m.x.copy(), **kw)
+        kw['old_id'] = g15.layout_of(np.array(m.old_id, dtype=sd['oid'] or np.int64), lay)
+    atype = g15.layout_of(m.atype.astype(sd['atype']) if sd['atype'] else m.atype.copy(), lay)
+    pos = g15.layout_of(m.x.astype(sd['pos']) if sd['pos'] else m.x.copy(), lay)
+    atoms = am.Atoms(atype=atype, pos=pos, **kw)
     return am.System(atoms=atoms, box=am.Box(vects=env['V'].copy(), origin=env['o'].copy()), pbc=env['pbc'].tolist(),
                      symbols=list(env['symbols']))
 
@@ -185,6 +220,8 @@ def scribble(system, env):
             arr[...] = ~arr
         elif kind == 'U':
             arr[...] = '#'
+        elif kind in 'iu' and arr.dtype.itemsize < 4:
+            arr[...] = ~arr
         else:
             arr[...] = arr + 1000
     system.box.set(vects=env['V'] * 2.0, origin=env['o'] + 1.0)
@@ -219,31 +256,71 @@ def unit(v):
     return v / np.linalg.norm(v)
 
 
-def fmt_vec(vec, form):
-    """(object passed to atomman, form actually used)"""
+def fmt_vec(vec, form, dt=None):
+    """(object passed to atomman, form actually used, the float64 vector that object represents, dtype variant used or None)
+
+    dt asks for a narrow / unusual representation (class C); it is applied where it is a faithful one (integers that fit, floats
+    that neither overflow nor vanish), the vector the object then represents - rounded to float32 / float16 - is what the caller
+    asked for, and the oracle decides from it."""
     vec = np.asarray(vec, dtype=float)
     if form in ('intlist', 'intarray'):
         r = np.rint(vec)
         if np.array_equal(r, vec) and np.abs(vec).max() < 2 ** 40:
             ints = [int(t) for t in r]
-            return (ints, 'intlist') if form == 'intlist' else (np.array(ints, dtype=np.int64), 'intarray')
+            ok = dt in g15.INT_ARG_DTS and all(g15.int_fits(t, dt) for t in ints)
+            if form == 'intlist':
+                if ok and dt != 'bool':
+                    return [g15.np_scalar(t, dt) for t in ints], 'intlist', vec, dt        # list of numpy integer scalars
+                return ints, 'intlist', vec, None
+            if ok:
+                return np.array(ints, dtype=dt), 'intarray', vec, dt
+            return np.array(ints, dtype=np.int64), 'intarray', vec, None
         form = 'list'
     if form == 'array':
-        return vec.copy(), 'array'
+        if dt in ('float32', 'float16', '>f8', '>f4'):
+            eff = g15.round_to(vec, dt)
+            if eff is not None:
+                return eff.astype(dt), 'array', eff, dt
+        elif dt in ('ro', 'strided'):
+            return g15.layout_of(vec.copy(), dt), 'array', vec, dt
+        return vec.copy(), 'array', vec, None
     if form == 'tuple':
-        return tuple(float(t) for t in vec), 'tuple'
-    return [float(t) for t in vec], 'list'
+        return tuple(float(t) for t in vec), 'tuple', vec, None
+    if dt == 'npscalars':
+        return [np.float64(t) for t in vec], 'list', vec, dt
+    return [float(t) for t in vec], 'list', vec, None
 
 
-def kw_value(name, val, aslist):
+_KW_NARROW = {'narrow': {'f': np.float32, 'i': np.int8, 'b': np.bool_}, 'narrow16': {'f': np.float16, 'i': np.int16, 'b': np.bool_}}
+
+
+def kw_value(name, val, aslist, kwdt=None):
+    """the keyword value of a new atom's property; kwdt: as numpy scalars / arrays of a narrow dtype (values are multiples of 1/8
+    up to 4 and integers up to 50: exactly representable)"""
     _, kind, shape = POOLD[name]
     if kind == 's':
         return str(val)
+    if kwdt:
+        return np.array(val, dtype=_KW_NARROW[kwdt][kind])[()]
     if aslist or not shape:
         if not shape:
             return {'f': float, 'i': int, 'b': bool}[kind](val)
         return val
     return np.array(val, dtype=DT[kind])
+
+
+def npint(v, op, labels):
+    """an index / type as the caller hands it in: Python int, or (op['npint']) a numpy integer scalar of the dtype op['iddt']
+    where the value fits (signed / unsigned, narrow, big-endian; default int64)"""
+    if not op['npint']:
+        return int(v)
+    dt = op.get('iddt') or 'int64'
+    if not g15.int_fits(int(v), dt):
+        dt = 'int64'
+    if labels is not None and dt != 'int64':
+        labels.add('iddt')
+        labels.add('iddt_' + dt)
+    return g15.np_scalar(int(v), dt)
 
 
 # ----------------------------------------------------------------------------- one step of a history
@@ -259,6 +336,13 @@ def plan_step(env, m, op):
     atol_arg = op['atol']
     A = env['A']
     atol = env['atol0'] if atol_arg is None else float(atol_arg) * A        # explicit atol: angstrom number -> working units
+    atol_obj = atol
+    if atol_arg is not None and op.get('atoldt'):
+        eff = g15.round_to([atol], op['atoldt'])
+        if eff is not None:
+            atol_obj = g15.np_scalar(atol, op['atoldt'])        # a numpy scalar; the tolerance asked for is the number it holds
+            atol = float(eff[0])
+            labels.add('atol_npscalar')
     k = op['k'] % N
     scale = bool(op['scale'])
     reasons = []
@@ -278,11 +362,20 @@ def plan_step(env, m, op):
         for name, val in op['kw']:
             if name in m.props:
                 kwvals[name] = val
-                kwargs[name] = kw_value(name, val, op['kwlist'])
+                kwargs[name] = kw_value(name, val, op['kwlist'], op.get('kwdt'))
         if kwvals:
             labels.add('kw')
+            if op.get('kwdt') and any(POOLD[name][1] != 's' for name in kwvals):
+                labels.add('kw_narrow')
     if op.get('oldid_kw') is not None and t in ('i', 'db'):
-        kwargs['old_id'] = int(op['oldid_kw'])
+        v = int(op['oldid_kw'])
+        dt = env['store']['oid']
+        if dt and m.old_id is not None and not g15.int_fits(v, dt):
+            # the system stores old_id in a narrow dtype: ask for an id that dtype can hold (the largest one not in use)
+            v = int(np.iinfo(np.dtype(dt)).max) - 1
+            while v in m.old_id:
+                v -= 1
+        kwargs['old_id'] = v
 
     # ---- the site
     sel = op['sel'] if t != 'i' else 'pos'
@@ -306,13 +399,17 @@ def plan_step(env, m, op):
                 rr = np.rint(rel)
                 if np.abs(rr - rel).max() < 1e-9:
                     rel = rr
-            arg, used = fmt_vec(rel, op['posform'])
-            if used in ('intlist', 'intarray'):
-                p = rel @ V + o
+            arg, used, eff, dtl = fmt_vec(rel, op['posform'], op.get('posdt'))
+            if used in ('intlist', 'intarray') or eff is not rel:
+                p = eff @ V + o
         else:
-            arg, used = fmt_vec(p, op['posform'])
+            arg, used, eff, dtl = fmt_vec(p, op['posform'], op.get('posdt'))
+            p = eff
         kwargs['pos'] = arg
         labels.add('pos_' + used)
+        if dtl:
+            labels.add('argdt')
+            labels.add('argdt_' + dtl)
         labels.add('scaled' if scale else 'cartesian')
         if sel == 'pos':
             st_, hit = lookup(env, m.x, p, atol)
@@ -333,16 +430,27 @@ def plan_step(env, m, op):
                     labels.add('image_nonperiodic')
             if not (t == 'i' and not op['inear']):
                 labels.add('off_%g' % f)
+                if f != 1.0 and abs(f - 1.0) <= 1.5e-3:
+                    labels.add('near_atol')             # 1e-3 ... 3e-4 (relative) inside / outside the search tolerance
+                    labels.add('near_atol_in' if f < 1.0 else 'near_atol_out')
+                elif 0.0 < f <= 1e-3:
+                    labels.add('tiny_off')              # almost exactly on the atom
+                if m.face[k]:
+                    labels.add('nearface')              # the atom aimed at is 1e-12 ... 1e-3 (relative) away from a face of the cell
+                    if np.any(image != 0):
+                        labels.add('nearface_image')
+            elif op.get('iface'):
+                labels.add('i_nearface')
     if sel in ('id', 'both'):
         idx = k - N if op['neg'] else k
         target = k
         if sel == 'id':
             labels.add('id_neg' if op['neg'] else 'id_pos')
-        kwargs['ptd_id'] = np.int64(idx) if op['npint'] else int(idx)
+        kwargs['ptd_id'] = npint(idx, op, labels)
     elif sel == 'oor':
         j = op['k'] % 3
         idx = (-N - 1 - j) if op['neg'] else (N + j)
-        kwargs['ptd_id'] = np.int64(idx) if op['npint'] else int(idx)
+        kwargs['ptd_id'] = npint(idx, op, labels)
         reasons.append('oor')
     elif sel == 'neither':
         reasons.append('neither')
@@ -354,7 +462,7 @@ def plan_step(env, m, op):
     elif op['k'] % 2:
         kwargs['scale'] = False
     if atol_arg is not None:
-        kwargs['atol'] = atol
+        kwargs['atol'] = atol_obj
         labels.add('atol_custom')
     elif 'pos' in kwargs and (sel == 'pos' or t == 'i'):
         labels.add('pos_default_atol')          # the site decision rests on the documented default tolerance
@@ -366,7 +474,7 @@ def plan_step(env, m, op):
         if op['atype_given'] or misuse:
             cur = int(m.atype[target]) if target is not None else 1
             newtype = 1 + (cur - 1 + op['tshift']) % (natypes + 1)
-            kwargs['atype'] = np.int64(newtype) if op['npint'] else newtype
+            kwargs['atype'] = npint(newtype, op, None)
         else:
             newtype = 1
         if target is not None and int(m.atype[target]) == newtype:
@@ -382,8 +490,13 @@ def plan_step(env, m, op):
         d = np.array(op['db'], dtype=float)
         if not scale:
             d = d * A               # Cartesian db_vect: angstrom numbers -> working units
+        kwargs['db_vect'], _, d, dtl = fmt_vec(d, op['dbform'], op.get('dbdt'))
+        if dtl:
+            labels.add('argdt')
+            labels.add('dbdt_' + dtl)
         dcart = d @ V if scale else d
-        kwargs['db_vect'], _ = fmt_vec(d, op['dbform'])
+        if t == 'db' and op.get('dbtiny'):
+            labels.add('tiny_db')
         if t == 'db' and op['atype_given']:
             cur = int(m.atype[target]) if target is not None else 1
             newtype = 1 + (cur - 1 + op['tshift']) % (natypes + 1)
@@ -438,6 +551,7 @@ def plan_step(env, m, op):
             postol = [1e-8 * env['vmax'] * smax * 3 + 1e-12 * env['omax']]
         else:
             postol = [4 * EPS * (A + float(np.abs(p).max()))]
+        postol[0] += env['estore'] * float(np.abs(p).max())         # float32 / float16 storage: the requested position, rounded once
     elif t == 's':
         idx = [i for i in range(N) if i != target] + [target]
         new = m.take(idx)
@@ -462,7 +576,8 @@ def plan_step(env, m, op):
         ndef = 2
         tol = 8 * EPS * (A + float(np.abs(m.x[target]).max()) + float(np.abs(dcart).max()))
         if scale:
-            tol += 1e-8 * env['vmax'] * float(np.abs(op['db']).max()) * 3
+            tol += 1e-8 * env['vmax'] * float(np.abs(d).max()) * 3
+        tol += env['estore'] * (float(np.abs(m.x[target]).max()) + float(np.abs(dcart).max()))
         postol = [tol, tol]
     out.update(status='ok', new=new, ndef=ndef, postol=postol, kwvals=kwvals)
     return out
@@ -544,9 +659,81 @@ def run_call(P, system, call):
             # System.dvect returns a single (3,) vector for one pair; point.py takes norm(..., axis=1) of it
             raise Violation('%s on a system with a single atom raised %s(%s)' % (describe(call), type(e).__name__, e), key=KEY_ONE)
         raise
+    except IndexError as e:
+        if isinstance(kw.get('ptd_id'), np.uint64) and 'valid indices' in str(e):
+            # index list [..., np.uint64(i)] -> numpy promotes int + uint64 to float64 -> not an index (substitutional, dumbbell)
+            raise Violation('%s: a valid atom index given as numpy.uint64 raised IndexError(%s)' % (describe(call), e), key=KEY_U64)
+        raise
 
 
-def do_step(am, P, env, system, m, op, first, first_snap, step):
+# ----------------------------------------------------------------------------- ledger, argument snapshots, caller-side mutation
+
+class Ledger:
+    """class A: every system a call returned is kept with a bit-for-bit snapshot and re-judged after LATER calls (on the same and on
+    other objects, under other working units) and after the caller overwrote what it had handed in"""
+
+    def __init__(self):
+        self.items = []
+        self.judged = 0
+        self.judged_other = 0
+
+    def add(self, obj, what):
+        self.items.append((obj, snapshot(obj), what))
+
+    def drop(self, obj):
+        self.items = [t for t in self.items if t[0] is not obj]
+
+    def judge(self, when, other=False):
+        for obj, snap, what in self.items:
+            check_snapshot(obj, snap, '%s [result kept and re-judged %s]' % (what, when))
+        if len(self.items) >= 2:
+            self.judged += 1
+            if other:
+                self.judged_other += 1
+
+
+def snap_args(kw):
+    """copies of the array-valued arguments (class B: what the caller hands in must be bit-identical after the call)"""
+    return {a: (b, b.copy(), b.dtype, b.shape, b.strides, bool(b.flags.writeable)) for a, b in kw.items() if isinstance(b, np.ndarray)}
+
+
+def check_args(asnap, what):
+    for a, (obj, cp, dt, shape, strides, wr) in asnap.items():
+        require(obj.dtype == dt and obj.shape == shape and obj.strides == strides and bool(obj.flags.writeable) == wr
+                and np.array_equal(obj, cp),
+                lambda: '%s: the array the caller passed as %s was changed by the call: %r (dtype %s) -> %r (dtype %s)'
+                % (what, a, cp.tolist(), dt, obj.tolist(), obj.dtype))
+
+
+def overwrite_args(asnap):
+    """the caller re-uses its buffers: everything writable it handed in is overwritten in place"""
+    n = 0
+    for a, (obj, cp, dt, shape, strides, wr) in asnap.items():
+        if wr:
+            obj[...] = 7 if obj.dtype.kind in 'iub' else -7.75
+            n += 1
+    return n
+
+
+def redefine(am, system, env):
+    """the caller re-defines the system it handed in through the setters (new arrays and objects behind the same System)"""
+    for k in list(system.atoms.view.keys()):
+        arr = system.atoms.view[k]
+        if not arr.flags.writeable or arr.size == 0:
+            continue
+        if arr.dtype.kind == 'b':
+            system.atoms.view[k] = ~arr
+        elif arr.dtype.kind == 'U':
+            system.atoms.view[k] = np.full(arr.shape, '##')
+        elif k == 'atype':
+            system.atoms.view[k] = np.ones(arr.shape, dtype=arr.dtype)
+        else:
+            system.atoms.view[k] = (arr * 0 + 3).astype(arr.dtype)
+    system.box_set(vects=env['V'][::-1] * 3.0, origin=env['o'] - 2.0)
+    system.pbc = [not bool(t) for t in system.pbc]
+
+
+def do_step(am, P, env, system, m, op, first, first_snap, step, ledger, last):
     """returns (system', model', labels, succeeded)"""
     plan = plan_step(env, m, op)
     if plan['status'] == 'skip':
@@ -554,7 +741,10 @@ def do_step(am, P, env, system, m, op, first, first_snap, step):
     what = 'step %d %s' % (step, describe(plan['call']))
     snap = snapshot(system)
     plan['snap'] = snap
+    asnap = snap_args(plan['call'][1])
     labels = set(plan['labels'])
+    if asnap:
+        labels.add('args_checked')
     if plan['status'] == 'refuse':
         ok = [MSG[r] for r in plan['reasons']]
         try:
@@ -563,6 +753,8 @@ def do_step(am, P, env, system, m, op, first, first_snap, step):
             if not any(isinstance(e, et) and frag in str(e) for et, frag in ok):
                 raise Violation('%s: expected the documented refusal %r, got %s(%s)' % (what, [o_[1] for o_ in ok], type(e).__name__, e))
             check_snapshot(system, snap, what + ' (refused)')
+            check_args(asnap, what + ' (refused)')
+            ledger.judge('after the refused ' + what)
             labels.add('refusal')
             labels.update('refuse_' + r for r in plan['reasons'])
             return system, m, labels, False
@@ -575,8 +767,11 @@ def do_step(am, P, env, system, m, op, first, first_snap, step):
     require(isinstance(res, am.System) and res is not system, lambda: '%s: returned %r' % (what, type(res)))
     compare(res, plan['new'], plan, env, what)
     check_snapshot(system, snap, what + ' (input system)')
+    check_args(asnap, what)
     if first is not system:
         check_snapshot(first, first_snap, what + ' (first system of the history)')
+    ledger.judge('after ' + what)
+    ledger.add(res, what)
     new = plan['new']
     got = [int(v) for v in res.atoms.view['old_id']]
     new.old_id = got            # equal where documented (checked); learned for the new atom
@@ -602,18 +797,43 @@ def do_step(am, P, env, system, m, op, first, first_snap, step):
             else:
                 kw2 = None
         if kw2 is not None:
+            asnap2 = snap_args(kw2)
             try:
                 res2 = run_call(P, system, (fname, kw2))
             except (ValueError, AssertionError) as e:
                 raise Violation('%s: the same site selected as %s was refused: %s(%s)' % (what, describe((fname, kw2)), type(e).__name__, e))
             compare(res2, plan['new'], plan, env, what + ' re-selected as ' + describe((fname, kw2)))
             check_snapshot(system, snap, what + ' (input system, second call)')
-    # aliasing probe on a copy of the result's twin: scribble over the result of a second identical call
+            check_args(asnap2, what + ' re-selected as ' + describe((fname, kw2)))
+            ledger.judge('after the same site was selected again as ' + describe((fname, kw2)))
+            ledger.add(res2, what + ' re-selected as ' + describe((fname, kw2)))
+    # aliasing probe: the caller edits, in place, everything in the system a third identical call (same argument objects) returned
     if op['k'] % 4 == 0:
         res3 = run_call(P, system, plan['call'])
+        compare(res3, plan['new'], plan, env, what + ' (the same call repeated with the same argument objects)')
+        check_args(asnap, what + ' (repeated)')
         scribble(res3, env)
         check_snapshot(system, snap, what + ' (input system after editing the returned system in place)')
+        ledger.judge('after the system returned by a repetition of the call was edited in place')
         labels.add('alias_probe')
+    # caller-side mutation (class B): the caller overwrites in place the arrays it passed and the system it handed in (in place or
+    # through the setters); what was returned earlier must not move.  The first system of a history is only given up at its end.
+    if op['k'] % 4 == 1:
+        if overwrite_args(asnap):
+            labels.add('mut_args')
+        if system is not first or last:
+            ledger.drop(system)
+            if op['k'] % 8 == 1:
+                scribble(system, env)
+                labels.add('mut_input_inplace')
+            else:
+                redefine(am, system, env)
+                labels.add('mut_input_setters')
+            labels.add('mut_input')
+            if system is first:
+                first_snap.clear()
+                first_snap.update(snapshot(system))
+        ledger.judge('after the caller overwrote the arrays it had passed to / the system it had handed to ' + what)
     labels.add('ok')
     return res, new, labels, True
 
@@ -634,18 +854,26 @@ def run_history(case):
     import atomman.defect as P
     import atomman.unitconvert as uc
     cfg = case.get('units')
-    if cfg is None:
-        return _run_history(am, P, case, _same)
-    hist = case.get('hist')
+    ledger = Ledger()           # spans the whole case: every system returned under either configuration, by any object
     head = {'sys': case['sys'], 'ops': case['ops'][:1]}
+    if cfg is None:
+        out = _run_history(am, P, case, _same, ledger)
+        if case.get('again'):
+            # another object with the same values, after the history: nothing returned so far may move
+            _run_history(am, P, head, _same, ledger)
+            ledger.judge('after the first operation was repeated on another system object', other=True)
+            out[0].add('again')
+        return ledger_labels(out, ledger)
+    hist = case.get('hist')
     try:
         if hist in ('before', 'both'):
-            _run_history(am, P, head, _same)            # same process, default working units, same oracles
+            _run_history(am, P, head, _same, ledger)            # same process, default working units, same oracles
         apply_units(uc, cfg)
+        ledger.judge('after reset_units(%r)' % (cfg,), other=True)
         A = float(uc.set_in_units(1.0, 'angstrom'))
         if not (np.isfinite(A) and A > 0.0):
             raise Violation('after reset_units(%r) one angstrom is %r working units' % (cfg, A))
-        labels, nok, nt_site, skewed = _run_history(am, P, case, lambda a: uc.set_in_units(a, 'angstrom'))
+        labels, nok, nt_site, skewed = _run_history(am, P, case, lambda a: uc.set_in_units(a, 'angstrom'), ledger)
         labels.add('units')
         labels.add('units_' + cfg['kind'])
         if cfg['kind'] == 'named':
@@ -658,16 +886,37 @@ def run_history(case):
             labels.add('hist_' + hist)
     finally:
         uc.reset_units(**DEFAULT_UNITS)
+    ledger.judge('after the default working units were restored', other=bool(hist in ('before', 'both')))
     if hist in ('after', 'both'):
-        _run_history(am, P, head, _same)                # back under the default units
-    return labels, nok, nt_site, skewed
+        _run_history(am, P, head, _same, ledger)                # back under the default units
+        ledger.judge('after the first operation was repeated under the default working units', other=True)
+    return ledger_labels((labels, nok, nt_site, skewed), ledger)
 
 
-def _run_history(am, P, case, conv):
+def ledger_labels(out, ledger):
+    if ledger.judged:
+        out[0].add('ledger')
+    if ledger.judged_other:
+        out[0].add('ledger_other')
+    return out
+
+
+def _run_history(am, P, case, conv, ledger):
     env, m = build_env(case['sys'], conv)
     system = make_system(am, env, m)
     first, first_snap = system, snapshot(system)
     labels = set(gens.cell_labels(case['sys']['cell']))
+    labels |= g15.sym_labels(case['sys'].get('sym'), case['sys']['cell'])
+    if env['store']['pos']:
+        labels.add('store_pos')
+        labels.add('store_pos_' + env['store']['pos'])
+    st_ = env['store']
+    if st_['atype'] or st_['oid'] or any(st_[kind] for kind, _ in m.kinds.values() if kind in ('f', 'i')):
+        labels.add('store_narrow')
+    if env['store']['oid']:
+        labels.add('store_oid')
+    if env['store']['layout'] != 'C':
+        labels.add('layout_' + env['store']['layout'])
     if not env['pbc'].all():
         labels.add('mixed_pbc')
     if m.old_id is not None:
@@ -678,14 +927,17 @@ def _run_history(am, P, case, conv):
         labels.add('twin')
     nok = 0
     nt_site = False
+    nops = len(case['ops'])
     for step, op in enumerate(case['ops']):
-        system, m, labs, ok = do_step(am, P, env, system, m, op, first, first_snap, step)
+        system, m, labs, ok = do_step(am, P, env, system, m, op, first, first_snap, step, ledger, step == nops - 1)
         labels |= labs
         if ok:
             nok += 1
             if 'pos' in labs_sel(labs) and ('image' in labs or 'scaled' in labs):
                 nt_site = True
     labels.add('nok%d' % nok)
+    check_snapshot(first, first_snap, 'the first system at the end of the history')
+    ledger.judge('at the end of the history')
     skewed = bool(labels & {'tilted', 'rotated', 'origin'})
     return labels, nok, nt_site, skewed
 
@@ -771,7 +1023,13 @@ _propsel = st.lists(st.integers(0, len(POOL) - 1), min_size=0, max_size=3, uniqu
 _bool = st.booleans()
 _one_in_5 = st.sampled_from([False, False, False, False, True])
 _one_in_6 = st.sampled_from([False, False, False, False, False, True])
-_twin_d = st.sampled_from([0.004, 0.008, 0.015, 0.03, 0.2])
+_twin_d = st.sampled_from([0.004, 0.008, 0.015, 0.03, 0.2, 0.00999, 0.01001])     # the last two: 1e-3 (relative) inside / outside the default atol
+_one_in_4 = st.sampled_from([False, False, False, True])
+_one_in_8 = st.sampled_from([False] * 7 + [True])
+_three_in_4 = st.sampled_from([True, True, True, False])
+_nface = st.integers(1, 3)
+_axis = st.integers(0, 2)
+_q8 = st.integers(0, 7)
 _DIRS = [[1, 0, 0], [0, 1, 0], [0, 0, -1], [1, 1, 0], [1, -1, 0], [0, 1, 1], [1, 1, 1], [1, -1, 1], [-1, -1, -1], [3, -2, 5], [1, 4, -2]]
 _dir = st.sampled_from(_DIRS)
 
@@ -822,7 +1080,26 @@ def draw_system(draw, twins=None):
         d = draw(_twin_d)
         u = unit(draw(_dir))
         tw.append([int(rng.integers(0, n)), (d * u).tolist()])
-    return {'cell': cell, 'pbc': pbc, 'rel': rel, 'atype': atype, 'symbols': symbols, 'props': props, 'old_id': old_id, 'twins': tw}
+    # class G: an exact image of the cell (signed permutation of the axes, renamed / reversed cell vectors); mostly on cells whose
+    # LAMMPS form was not rotated, so that the zeros survive (triangular cells with negative entries, left-handed cells)
+    sym = None
+    if draw(_one_in_4):
+        sym = g15.draw_sym(draw)
+        if cell.get('rot') and draw(_three_in_4):
+            cell = dict(cell, rot=None)
+    # class C: what the system stores (positions float32 / float16 / big-endian, narrow integer types and properties, old_id
+    # up to the limit of its dtype, Fortran-ordered / strided / read-only arrays handed to Atoms)
+    store = g15.draw_store(draw) if draw(_one_in_5) else None
+    # class E: atoms 1e-12 ... 1e-3 (relative) away from a face of the cell, inside or just outside
+    face = []
+    if draw(_one_in_6):
+        for _ in range(draw(_nface)):
+            j = int(rng.integers(0, n))
+            rel[j] = list(rel[j])
+            rel[j][draw(_axis)] = g15.draw_face_coord(draw)
+            face.append(j)
+    return {'cell': cell, 'pbc': pbc, 'rel': rel, 'atype': atype, 'symbols': symbols, 'props': props, 'old_id': old_id, 'twins': tw,
+            'sym': sym, 'store': store, 'face': face}
 
 
 _type = st.sampled_from(['v', 'i', 's', 'db'])
@@ -899,7 +1176,16 @@ def draw_op(draw, props, refuse=False, offf=None, posform=None, units=None):
         'off': [draw(offf or _offf), draw(_dir)], 'atol': draw(_atol), 'posform': draw(posform or _posform),
         'irel': [draw(_irel) for _ in range(3)], 'inear': draw(_one_in_5), 'tshift': draw(_tshift), 'atype_given': draw(_bool),
         'db': d, 'dbform': draw(_dbform), 'kw': kw, 'kwlist': draw(_bool), 'oldid_kw': draw(_oldid_kw), 'misuse': None,
+        'posdt': draw(g15._argdt), 'dbdt': draw(g15._argdt), 'iddt': draw(g15._iddt), 'atoldt': draw(g15._atoldt), 'kwdt': draw(g15._kwdt),
+        'dbtiny': False, 'iface': False,
     }
+    if offf is None and draw(_one_in_8):
+        op['off'][0] = draw(g15._near_f)            # class E: 1e-3 ... 3e-4 around the tolerance, 1e-9 ... 1e-3 atol off the atom
+    if draw(_one_in_8):
+        tiny = draw(g15._tiny_db)
+        op['db'], op['dbtiny'] = [t * tiny for t in d], True
+    if draw(_one_in_8):
+        op['irel'][draw(_axis)], op['iface'] = g15.draw_face_coord(draw), True
     if units is not None:
         # under other working units the documented default tolerance and the displacements 0.3 / 3 atol around it matter most
         if offf is None and draw(_bool):
@@ -909,11 +1195,20 @@ def draw_op(draw, props, refuse=False, offf=None, posform=None, units=None):
     return op
 
 
+def aim_at_face(draw, s, op):
+    """half of the operations on a system with near-face atoms aim at one of them (any later state: k is taken modulo natoms)"""
+    if s['face'] and draw(_bool):
+        natoms = len(s['rel']) + len(s['twins'])
+        op['k'] = s['face'][0] + natoms * draw(_q8)
+    return op
+
+
 @st.composite
 def insert_cases(draw):
     s = draw_system(draw)
     cfg, hist = draw_units(draw)
-    return {'sys': s, 'ops': [draw_op(draw, s['props'], units=cfg)], 'units': cfg, 'hist': hist}
+    op = aim_at_face(draw, s, draw_op(draw, s['props'], units=cfg))
+    return {'sys': s, 'ops': [op], 'units': cfg, 'hist': hist, 'again': draw(_one_in_4)}
 
 
 @st.composite
@@ -921,8 +1216,8 @@ def history_cases(draw):
     s = draw_system(draw)
     n = draw(st.integers(1, 4))
     cfg, hist = draw_units(draw)
-    ops = [draw_op(draw, s['props'], offf=_offf_in if draw(_bool) else None, units=cfg) for _ in range(n)]
-    return {'sys': s, 'ops': ops, 'units': cfg, 'hist': hist}
+    ops = [aim_at_face(draw, s, draw_op(draw, s['props'], offf=_offf_in if draw(_bool) else None, units=cfg)) for _ in range(n)]
+    return {'sys': s, 'ops': ops, 'units': cfg, 'hist': hist, 'again': draw(_one_in_4)}
 
 
 _refuse_kind = st.sampled_from(['sel', 'sel', 'misuse', 'beyond', 'twin', 'twin', 'occupied', 'sametype', 'nonperiodic'])
@@ -961,7 +1256,7 @@ def refuse_cases(draw):
         op['tshift'] = 0
         op['atype_given'] = True
         op['off'][0] = 0.0
-    return with_units(draw, {'sys': s, 'ops': [op]})
+    return with_units(draw, {'sys': s, 'ops': [op], 'again': draw(_one_in_4)})
 
 
 # integer-typed positions: cells and atoms with integral Cartesian coordinates
@@ -969,6 +1264,7 @@ _even = st.sampled_from([4, 8, 12])
 _etilt = st.sampled_from([0, 0, 4, -4])
 _iorg = st.integers(-20, 20)
 _half = st.sampled_from([1, 2])
+_intdt = st.sampled_from([None, None] + g15.INT_ARG_DTS)
 
 
 @st.composite
@@ -986,6 +1282,8 @@ def intpos_cases(draw):
          'props': [['charge', rand_vals(rng, 'f', [], n)]] if draw(_bool) else [], 'old_id': None, 'twins': []}
     op = draw_op(draw, s['props'], offf=st.just(0.0), posform=_posform_int)
     op['sel'] = 'pos'
+    op['posdt'] = draw(_intdt)          # narrow / unsigned / big-endian / bool integer arrays, lists of numpy integer scalars
+    op['iface'] = False
     op['irel'] = [draw(st.sampled_from([0.25, 0.75, 1.25, -0.25])) for _ in range(3)]
     if op['scale']:
         op['k'] = 0          # the atom at the cell corner: integral relative coordinates
